@@ -131,6 +131,8 @@ def d4(ctx, prog, base, bl, fc, fc_body):
 
 
 def run(ctx, prog):
+    from .. import universe as _uni0
+    _uni0.inline_base_entry_points(ctx, prog)
     ctx.rule('C08-D1', 'every _compute_convergence_traces call follows a compute_results() newer than the last process(); it appends scores[..., None] on the last axis; only the two hooks call it')
     ctx.rule('C08-D2', 'the convergence hooks store only convergence_traces, _batches_processed, results, scores')
     ctx.rule('C08-D3', '_final_compute: super()._final_compute() first, then append iff the bookkeeping shows traces processed since the last point')
